@@ -86,15 +86,40 @@ impl Partition {
         }
 
         let segments = self.filter_segments_by_offsets(start_offset, end_offset);
-        match segments.len() {
-            0 => Ok(Vec::new()),
+        let messages = match segments.len() {
+            0 => return Ok(Vec::new()),
             1 => {
                 segments[0]
                     .get_messages_by_offset(start_offset, count)
-                    .await
+                    .await?
             }
-            _ => Self::get_messages_from_segments(segments, start_offset, count).await,
-        }
+            _ => Self::get_messages_from_segments(segments, start_offset, count).await?,
+        };
+        let first_available_offset = self
+            .segments
+            .first()
+            .map(|segment| segment.start_offset)
+            .unwrap_or(0);
+        Ok(Self::without_gaps(
+            messages,
+            start_offset.max(first_available_offset),
+        ))
+    }
+
+    // A batch handed over to the background persister (no-wait confirmation) is for a moment neither in the
+    // unsaved buffer nor readable from the disk, while the newer messages already are in the buffer.
+    // The result is cut at such a gap: only the consecutive messages from the expected first offset are returned.
+    fn without_gaps(
+        mut messages: Vec<Arc<RetainedMessage>>,
+        expected_first_offset: u64,
+    ) -> Vec<Arc<RetainedMessage>> {
+        let consecutive = messages
+            .iter()
+            .enumerate()
+            .take_while(|(index, message)| message.offset == expected_first_offset + *index as u64)
+            .count();
+        messages.truncate(consecutive);
+        messages
     }
 
     // Retrieves the first messages (up to a specified count).
